@@ -116,7 +116,9 @@ def work(args):
                     vC = flatcheck.judge_fast(srv, m, rC, tt)
                     record(cC, '', rC, vC, 'lemma')
         # conversion options: single deviations on the base config and on the all-accepting config
-        if tier == 'quick' and g != gnames[0]: continue
+        # quick: option deviations under the first preset only, except for the sharing family (one expression used
+        # in an objective and a constraint: cvt:quadobj / cvt:quadcon decide which of them owns the expression)
+        if tier == 'quick' and g != gnames[0] and fam != 'sharing': continue
         base = flatcheck.base_config(g)
         call = {'g': g + '+all', 'types': dict(base['types']), 'flags': dict(base['flags']), 'default': 2}
         devs = OPTION_DEVS if (tier == 'quick' or g != gnames[0]) else OPTION_DEVS + \
@@ -191,6 +193,8 @@ def main(tier, seed):
     ]
     if tot['v_invalid-nl']:
         chk.broken.append('generator produced %d NL texts the reader rejected' % tot['v_invalid-nl'])
+    if tot['v_oracle-internal']:
+        chk.broken.append('simplex and Fourier-Motzkin disagree inside the oracle on %d cases' % tot['v_oracle-internal'])
     if tot['oracle_disagreements']:
         chk.broken.append('C++ and Python oracles disagree on %d cases' % tot['oracle_disagreements'])
     if tot['configs'] and tot['nontrivial'] * 20 < tot['v_ok']:
